@@ -32,6 +32,12 @@ def conditions(tier, seed):
     out.append(Cond('generator_replaced', 'c19_new.py', {}, func='check_swap', timeout=t,
                     bound='0..2 creations, then metamodel.id_generator replaced by another user generator, then creations in a class defined before and one defined after',
                     symbolic=['generator outputs a1 a2 b1 b2 b3'], case_split=['k']))
+    out.append(Cond('generator_subclass', 'c19_new.py', {}, func='check_subclass', timeout=t,
+                    bound='a generator derived from IntegerGenerator that overrides next() to step over one reserved id (1..4); 1..4 defaulted creations',
+                    case_split=['reserved id', 'n']))
+    out.append(Cond('attribute_edits', 'c19_new.py', {}, func='check_edit', timeout=t,
+                    bound='0..2 creations, then one of 8 attribute edits (insert at 0 / 1 / 2, append, delete, unknown type), then creations without and with a positional argument',
+                    symbolic=['positional value pa'], case_split=['edit', 'creations before']))
     out.append(Cond('types', 'c19_new.py', {}, func='check_type', timeout=t,
                     bound='16 type names x value omitted / positional / keyword', case_split=['ti', 'how']))
     return out
